@@ -1,56 +1,3 @@
 //! Helpers shared by the property checks.
 #![allow(dead_code)]
-
-use std::cell::RefCell;
-use std::panic::{catch_unwind, AssertUnwindSafe};
-
-thread_local! {
-    static LAST_PANIC: RefCell<Option<String>> = const { RefCell::new(None) };
-    static GUARDED: RefCell<u32> = const { RefCell::new(0) };
-}
-
-/// Panics inside `guard(..)` are observations (captured silently, with location); panics
-/// anywhere else are bugs of the harness and are printed as usual.
-pub fn install_panic_hook() {
-    let default = std::panic::take_hook();
-    std::panic::set_hook(Box::new(move |info| {
-        let guarded = GUARDED.with(|g| *g.borrow() > 0);
-        let msg = info
-            .payload()
-            .downcast_ref::<String>()
-            .cloned()
-            .or_else(|| info.payload().downcast_ref::<&str>().map(|s| s.to_string()))
-            .unwrap_or_else(|| "<non-string panic>".to_string());
-        let loc = info
-            .location()
-            .map(|l| format!("{}:{}", l.file(), l.line()))
-            .unwrap_or_default();
-        if guarded {
-            LAST_PANIC.with(|p| *p.borrow_mut() = Some(format!("{msg} @ {loc}")));
-        } else {
-            default(info);
-        }
-    }));
-}
-
-/// Run `f`, turning a panic into `Err("message @ file:line")`.
-pub fn guard<R>(f: impl FnOnce() -> R) -> Result<R, String> {
-    GUARDED.with(|g| *g.borrow_mut() += 1);
-    let r = catch_unwind(AssertUnwindSafe(f));
-    GUARDED.with(|g| *g.borrow_mut() -= 1);
-    match r {
-        Ok(v) => Ok(v),
-        Err(_) => Err(LAST_PANIC
-            .with(|p| p.borrow_mut().take())
-            .unwrap_or_else(|| "panic".to_string())),
-    }
-}
-
-/// "h3/src/frame.rs:67" from ".../h3/src/frame.rs:67" — keeps signatures stable across checkouts.
-pub fn short_loc(panic_msg: &str) -> String {
-    let loc = panic_msg.rsplit(" @ ").next().unwrap_or("");
-    let loc = loc.strip_prefix("/repo/").unwrap_or(loc);
-    // drop the line number: the signature must survive unrelated edits above the site
-    let file = loc.rsplit_once(':').map(|(f, _)| f).unwrap_or(loc);
-    file.to_string()
-}
+pub use explore::panics::{guard, install_panic_hook, short_loc};
